@@ -218,6 +218,50 @@ section ends at the first unescaped `` ` `` or `{`. Returns the denoted bytes an
 def decodeInterpSegment (text : List UInt8) : Option (List UInt8 × List UInt8) :=
   decodeBody .luau (fun c => c == 96 || c == 123) text
 
+/-! ### whole interpolated strings -/
+
+inductive InterpPiece where
+  | str (value : List UInt8)
+  | val (exprText : List UInt8)
+  deriving DecidableEq, Repr
+
+/-- the text of a `{ … }` part up to its matching `}` (braces counted; the reference is used on
+expression texts without string literals or comments) -/
+def scanBraces : Nat → List UInt8 → Option (List UInt8 × List UInt8)
+  | _, [] => none
+  | depth, c :: r =>
+    if c == 125 then
+      match depth with
+      | 0 => some ([], r)
+      | d + 1 => (scanBraces d r).map fun (t, rest) => (c :: t, rest)
+    else if c == 123 then (scanBraces (depth + 1) r).map fun (t, rest) => (c :: t, rest)
+    else (scanBraces depth r).map fun (t, rest) => (c :: t, rest)
+
+/-- after the opening backtick: sections and `{…}` parts up to the closing backtick, which must
+end the text. `{{` is refused (Luau: "Double braces are not permitted…"). Empty sections are
+not reported. -/
+def interpLoop : Nat → List UInt8 → Option (List InterpPiece)
+  | 0, _ => none
+  | fuel + 1, text =>
+    match decodeInterpSegment text with
+    | none => none
+    | some (bytes, rest) =>
+      let pre : List InterpPiece := if bytes.isEmpty then [] else [.str bytes]
+      match rest with
+      | 96 :: r => if r.isEmpty then some pre else none
+      | 123 :: r =>
+        if r.head? == some 123 then none
+        else match scanBraces 0 r with
+          | none => none
+          | some (expr, r') => (interpLoop fuel r').map fun ps => pre ++ .val expr :: ps
+      | _ => none
+
+/-- the text of one whole interpolated string ↦ its pieces -/
+def decodeInterpString (text : List UInt8) : Option (List InterpPiece) :=
+  match text with
+  | 96 :: r => interpLoop (r.length + 1) r
+  | _ => none
+
 /-! # number literals by Luau's rules (Luau `Lexer::readNumber`, `Parser::parseNumber`) -/
 
 def isAlpha (c : UInt8) : Bool := (97 ≤ c && c ≤ 122) || (65 ≤ c && c ≤ 90)
